@@ -6,7 +6,7 @@ from lib import schedcommon as sc, vlib
 PROPS = "props/C05.v"
 PID = "C05"
 WHICH = ["repoint"]
-TRUSTED = ["python register oracle lib/schedcommon.py stress_oracle (sound, incomplete); seeded yield injection at the store's verifPoints"]
+TRUSTED = ["gcintr replay: harness parks the real GC pass at verifPoint gc.appended; python register oracle lib/schedcommon.py stress_oracle (sound, incomplete); seeded yield injection at the store's verifPoints"]
 ASSUMPTIONS = ["the lock-granular atomicity of the model (client writes atomic under the bucket write lock, a read = tree lookup then positional "
                "read) is validated by the schedules, not proved of the Go code; data races below lock granularity are out of reach"]
 
@@ -23,6 +23,10 @@ def run(ctx):
     for w in WHICH:
         rs += sc.run_sched(ctx, w, (25 if ctx.tier == "quick" else 2000) if w == "stress" else 0, ctx.seed)
     sm = judge(rs)
+    gis = sc.run_sched(ctx, "gcintr", 60 if ctx.tier == "quick" else 3000, ctx.seed)
+    mm, nsh, nok = sc.gi_evaluate(ctx, gis, "c05gi")
+    for r in gis:
+        sm += sc.gcintr_oracle(r)
     dist = {}
     nops = 0
     for r in rs:
@@ -30,11 +34,22 @@ def run(ctx):
         nops += len(r.get("hist") or [])
         if r["scenario"] != "stress":
             dist["%s/%s" % (r["scenario"], r["variant"])] = 1
-    nt = {vlib.sha([r["scenario"], r["variant"], r.get("hist"), r.get("obs")]) for r in rs if r["scenario"] != "stress" or len(r.get("hist") or []) >= 40}
+    dist["scenario:gcintr"] = len(gis)
+    dist["gcintr: client ran while the pass was parked after a copy"] = sum(1 for r in gis if r["gi"]["parked"])
+    dist["gcintr: client wrote a key that has a record in the collected range"] = sum(
+        1 for r in gis if any(o.get("k") == r["gi"]["op"].get("k") and o["op"] in "SD" for o in r["gi"]["pre"]))
+    dist["gcintr: colliding keys"] = sum(1 for r in gis if "collide=true" in r["variant"])
+    nops += sum(len(r["gi"]["pre"]) + len(r["gi"]["post"]) + 2 for r in gis)
+    nt = {vlib.sha(r["gi"]) for r in gis if r["gi"]["parked"]} | {vlib.sha([r["scenario"], r["variant"], r.get("hist"), r.get("obs")]) for r in rs if r["scenario"] != "stress" or len(r.get("hist") or []) >= 40}
     samples = [dict(scenario=r["scenario"], variant=r["variant"], obs=r.get("obs"), ops=len(r.get("hist") or []), final=r.get("final")) for r in rs[:4]]
-    return dict(evaluations=len(rs), distinct_nontrivial=len(nt), samples=samples, model_mismatches=[], spec_violations=sm,
-                shards=0, shards_ok=0, dist=dist, extra=dict(recorded_operations=nops),
-                rule="forced schedules park a goroutine of the real store at a named verifPoint and run the other party to completion; stress "
+    return dict(evaluations=len(rs) + len(gis), distinct_nontrivial=len(nt), samples=samples, model_mismatches=mm, spec_violations=sm,
+                shards=nsh, shards_ok=nok, dist=dist, extra=dict(recorded_operations=nops),
+                rule="gcintr: seeded histories (sets / deletes / gets / flushes over 4..9 keys, 512..1024-byte files, optionally two keys forced onto one "
+                     "hash) followed by a GC pass over a seeded range which is parked right after the copy of its n-th relocated record "
+                     "(verifPoint gc.appended) while a client sets or deletes a key, then released; gets / meta-gets of every key, a restart, and "
+                     "gets again; the whole history with every reply and the GC statistics is replayed inside Coq on the split GC step of "
+                     "model/GcSplit.v (CheckGcSplit.gi_run) and a python oracle checks that every key reads its last acknowledged write; "
+                     "forced schedules park a goroutine of the real store at a named verifPoint and run the other party to completion; stress "
                      "runs 2..8 client goroutines x 25 operations (set / delete / get / meta-get of unique values on 1..3 shared keys) with a "
                      "flusher + hint dumper loop, small file and split limits and seeded yield / sleep injection at every verifPoint, recording "
                      "invocation and response order; non-trivial = scenario run or history of >= 40 operations")
@@ -43,6 +58,8 @@ def run(ctx):
 def search(ctx, broken):
     found = []
     for s in range(2):
+        for r in sc.run_sched(ctx, "gcintr", 60, ctx.seed * 100 + 50 + s):
+            found += sc.gcintr_oracle(r)
         rs = []
         for w in WHICH:
             rs += sc.run_sched(ctx, w, 25 if w == "stress" else 0, ctx.seed * 100 + 4 + s)
@@ -72,9 +89,15 @@ def replay(ctx, path):
         print("replay file names no concrete input:", json.dumps(obj.get("broken")))
         return 1
     rs = []
-    for w in WHICH:
-        rs += sc.run_sched(ctx, w, 25 if w == "stress" else 0, case["seed"])
-    viol = [v for v in judge(rs) if v["case"].get("scenario") == case.get("scenario")]
+    if case.get("scenario") == "gcintr":
+        gis = sc.run_sched(ctx, "gcintr", 60 if case["i"] < 60 else 3000, case["seed"])
+        viol = [v for r in gis for v in sc.gcintr_oracle(r)]
+        mm, _, _ = sc.gi_evaluate(ctx, [r for r in gis if r["i"] == case["i"]], "c05replay")
+        viol += [dict(kind="model-mismatch", what=json.dumps(m)[:200]) for m in mm]
+    else:
+        for w in WHICH:
+            rs += sc.run_sched(ctx, w, 25 if w == "stress" else 0, case["seed"])
+        viol = [v for v in judge(rs) if v["case"].get("scenario") == case.get("scenario")]
     for x in viol[:5]:
         print(x["kind"], x["what"])
     if viol:
